@@ -405,7 +405,7 @@ def temporal_reference_check(before: State, after: State, mutations):
 
 
 # ---------------------------------------------------------------- long-lived sessions
-def run_session(state0: State, events, fsdirs, N=2, backend=W.MemBackend):
+def run_session(state0: State, events, fsdirs, N=2, backend=W.MemBackend, fault_for=None):
     """Library-style use: ONE Repository object per user is kept for the whole
     history (all commands run in one event loop). Returns the list of
     (event, State after it, StepResult)."""
@@ -425,6 +425,9 @@ def run_session(state0: State, events, fsdirs, N=2, backend=W.MemBackend):
                 W.set_clock(dt.datetime(2024, 1, 1) + dt.timedelta(hours=new.seq))
                 res = StepResult()
                 m0, c0 = len(store.mutations), len(store.calls)
+                if fault_for is not None:
+                    # fault_for(position of the event, call index at its start) -> fault callable or None
+                    store.fault = fault_for(len(out), c0)
                 with W.captured():
                     try:
                         if uname not in repos:
